@@ -737,7 +737,7 @@ func (w *world) runCase(c *txCase, commit bool) (admit, exec string) {
 		exec = "panic:" + er.site
 	}
 	nontrivial := admit == "ok" || strings.HasPrefix(admit, "panic") || strings.HasPrefix(exec, "panic")
-	run.Op(op, "admit="+admit+" exec="+exec, nontrivial)
+	run.Op(op, "adm="+admit+" exec="+exec, nontrivial)
 	run.Count("tx:" + string(c.rcpt))
 	run.Count("admit:" + admit)
 	run.Count("exec:" + exec)
@@ -796,7 +796,8 @@ func (w *world) valCase(c *txCase) {
 			Type: tx.Body.Type.String(), Payload: string(c.payload), Stage: "Validate", Panic: r.msg, Site: r.site})
 	}
 	// the rest of the pipeline has no model for non-governance types; still: it must not panic
-	if tx.Body.Type != types.TxType_GOVERNANCE && r.err == nil && !r.panicked {
+	// (FEEDELEGATION asks the chain service through the actor hub, which this harness does not run)
+	if tx.Body.Type != types.TxType_GOVERNANCE && tx.Body.Type != types.TxType_FEEDELEGATION && r.err == nil && !r.panicked {
 		mp := w.pool()
 		txi := types.NewTransaction(tx)
 		r1 := guard(func() error {
